@@ -7,11 +7,10 @@ def classify(case):
 
 SPEC = dict(
     prop="C29",
-    disabled="under construction",
     coq_targets=["props/C29.vo"],
     drivers=[
         dict(name="hist", kind="main", pkg="./zzverif/c29",
-             n=dict(quick=400, thorough=12000),
+             n=dict(quick=300, thorough=12000),
              ev=dict(requires=["V.lib.JsonTree", "V.models.Config"], case_type="Config.case",
                      mismatch="Config.mismatch", monitor="Config.monitor_fail")),
     ],
